@@ -288,6 +288,28 @@ Definition oversize (c : cfg) (t : req) : bool :=
   let cps := if r_cpr t =? 0 then 1 else r_cpr t in
   (cpn c <? cps) || (64 * gpn c <? r_gpr t) || (lfs_pn c <? r_lfs t) || (mem_pn c <? r_mem t).
 
+(* a colocate tag seen before confines the grant to the nodes recorded for it *)
+Definition c02_colo_bit (tags : list (Z * list Z)) (t : req) (sl : list slot) : bool :=
+  match r_colo t with
+  | None => true
+  | Some tag => match zlookup tag tags with
+                | None => true
+                | Some ns => forallb (fun s => zmem (s_node s) ns) sl
+                end
+  end.
+
+(* the `exclusive` rule on one grant: a new tag with exclusive=True gets no node that an earlier tag uses while the
+   pilot has more nodes than tagged ones *)
+Definition c02_excl_bit (tags : list (Z * list Z)) (tgd : list Z) (nnodes : nat) (t : req) (sl : list slot) : bool :=
+  match r_colo t with
+  | None => true
+  | Some tag => match zlookup tag tags with
+                | Some _ => true
+                | None => if r_excl t && (length tgd <? nnodes)%nat
+                          then forallb (fun s => negb (zmem (s_node s) tgd)) sl else true
+                end
+  end.
+
 (* walk all events in order, tracking the node set recorded for every colocate tag and the set of tagged nodes
    (which only grows, also when a later grant overwrites the record of its tag with fewer nodes) *)
 Fixpoint c02_events (c : cfg) (ns0 : list node) (rs : list req) (evs : list event)
@@ -304,24 +326,9 @@ Fixpoint c02_events (c : cfg) (ns0 : list node) (rs : list req) (evs : list even
             let b_shape := forallb (slot_shape_ok ns0 t) sl in
             let b_rpn := if r_rpn t =? 0 then true
                          else forallb (fun s => count_node (s_node s) sl <=? r_rpn t) sl in
-            let b_colo := match r_colo t with
-                          | None => true
-                          | Some tag => match zlookup tag tags with
-                                        | None => true
-                                        | Some ns => forallb (fun s => zmem (s_node s) ns) sl
-                                        end
-                          end in
+            let b_colo := c02_colo_bit tags t sl in
             let b_over := negb (oversize c t) in
-            (* the `exclusive` rule: a new tag with exclusive=True gets no node that an earlier tag uses while the
-               pilot has more nodes than tagged ones *)
-            let b_excl := match r_colo t with
-                          | None => true
-                          | Some tag => match zlookup tag tags with
-                                        | Some _ => true
-                                        | None => if r_excl t && (length tgd <? length ns0)%nat
-                                                  then forallb (fun s => negb (zmem (s_node s) tgd)) sl else true
-                                        end
-                          end in
+            let b_excl := c02_excl_bit tags tgd (length ns0) t sl in
             let tags' := match r_colo t with Some tag => zstore tag (map s_node sl) tags | None => tags end in
             let tgd' := match r_colo t with Some _ => zadd_all (map s_node sl) tgd | None => tgd end in
             let acc' := match acc with
